@@ -40,6 +40,13 @@
 (* ExistsRefreshes = TRUE is the tree as it is (with FALSE TLC shows the      *)
 (* stale resolution as a counterexample).                                    *)
 (*                                                                         *)
+(* NEIGHBOURS: other keys of the store whose names merely START with the     *)
+(* queried entry's name (c/RT/role/x-full, c/RT/role/x/sub) are not the      *)
+(* entry: ConsulSource.Exists is a read of the exact key, YamlSource.Exists   *)
+(* walks the exact path segments.  nbrs says at which candidate levels such    *)
+(* neighbours sit; no definition below looks at it - "the first EXISTING       *)
+(* entry" is about x itself, whatever else the store holds.                   *)
+(*                                                                         *)
 (* CONCURRENT requests: every request is one atomic step of this model (the   *)
 (* trace of a free-running stress run is the order in which the answers were  *)
 (* recorded).  As long as nobody writes the store, the answer of a request is  *)
@@ -66,19 +73,21 @@ CONSTANTS MaxSteps,            \* requests per behaviour
           ExistsRefreshes,     \* YamlSource.Exists re-reads the file before looking (TRUE: the tree as it is)
           StoreInit, EditVals, \* initial values of the candidate entries ({0, 1}: the 16 patterns); values an external edit writes
           Backends,            \* {"file", "consul"}: which backing stores a service may sit on
+          NbrInit,             \* the neighbour patterns a store may start with (subsets of Keys)
           FaultSets            \* the fault patterns F tried on the Consul backend (subsets of 1..4); {{}} = no faults
 
 VARIABLES content,   \* [Entries -> parts]                                   (property level)
           compiled,  \* [Entries -> snapshot | NoSnap]: the template cache   (code level)
           dirty,     \* an entry was updated since the cache was last dropped
           backend,   \* "file" | "consul": fixed for the life of the service
+          nbrs,      \* the candidate levels that hold LONGER-NAMED NEIGHBOURS of x: the entry x-full and (Consul) the key x/sub
           store,     \* [Keys -> 0 absent | 1 | 2 payload version]: the candidate entries c/RT/role/x NOW   (property level)
           tree,      \* the same, as last read by the backend (YamlSource.data)                              (code level)
           req,       \* the last request
           out,       \* what the code-level service answered: [ok, out]
           n
 
-svars == <<content, compiled, dirty, backend, store, tree, req, out, n>>
+svars == <<content, compiled, dirty, backend, nbrs, store, tree, req, out, n>>
 
 (* two base paths; D2f is asked for but never exists *)
 \* Entries in SUBFOLDERS: S1 = c/PHYSICS/r/sub (main, sib; its parent D1 has a namesake "sib" with other content) and
@@ -138,7 +147,7 @@ Nothing == Rendered("")
 
 Init == /\ content = InitContent
         /\ compiled = [e \in Entries |-> NoSnap]
-        /\ backend \in Backends
+        /\ backend \in Backends /\ nbrs \in NbrInit
         /\ store \in [Keys -> StoreInit] /\ tree = store           \* NewService reads the file: any of the 16 patterns
         /\ dirty = FALSE /\ req = NoReq /\ out = Nothing /\ n = 0
 
@@ -154,34 +163,34 @@ Process(e, vs) ==
             IN /\ out' = RenderWith(snap.parts, snap.sib, TRUE, vs, AutoEscape)      \* bindings built from THIS request's vs
                /\ compiled' = [compiled EXCEPT ![e] = snap]
                /\ tree' = IF compiled[e] # NoSnap THEN tree ELSE store               \* a cache hit does not touch the backend
-  /\ n' = n + 1 /\ UNCHANGED <<content, dirty, store, backend>>
+  /\ n' = n + 1 /\ UNCHANGED <<content, dirty, store, backend, nbrs>>
 
 Raw(e) ==
   /\ n < MaxSteps
   /\ req' = [op |-> "Raw", e |-> e, vars |-> <<>>, parts |-> <<>>, f |-> {}]
   /\ out' = IF e \in Entries THEN Rendered(Source(content[e])) ELSE RenderError      \* src.Get: never cached
   /\ tree' = IF e \in Entries \/ ExistsRefreshes THEN store ELSE tree               \* Exists, then Get (which re-reads)
-  /\ n' = n + 1 /\ UNCHANGED <<content, compiled, dirty, store, backend>>
+  /\ n' = n + 1 /\ UNCHANGED <<content, compiled, dirty, store, backend, nbrs>>
 
 Invalidate ==
   /\ n < MaxSteps
   /\ req' = [op |-> "Invalidate", e |-> "", vars |-> <<>>, parts |-> <<>>, f |-> {}]
   /\ compiled' = [e \in Entries |-> NoSnap] /\ dirty' = FALSE /\ out' = Nothing
-  /\ n' = n + 1 /\ UNCHANGED <<content, store, tree, backend>>
+  /\ n' = n + 1 /\ UNCHANGED <<content, store, tree, backend, nbrs>>
 
 Update(e, parts) ==
   /\ n < MaxSteps /\ e \in UpdEntries /\ content[e] # parts
   /\ req' = [op |-> "Update", e |-> e, vars |-> <<>>, parts |-> parts, f |-> {}]
   /\ content' = [content EXCEPT ![e] = parts] /\ dirty' = TRUE /\ out' = Nothing     \* src.Put only: the cache is kept
   /\ tree' = store                                                                  \* Put re-reads, writes, flushes
-  /\ n' = n + 1 /\ UNCHANGED <<compiled, store, backend>>
+  /\ n' = n + 1 /\ UNCHANGED <<compiled, store, backend, nbrs>>
 
 (* ---- the store changing under the service ---- *)
 ExternalEdit(k, v) ==          \* somebody else writes the backing store; the service is not told
   /\ n < MaxSteps /\ store[k] # v
   /\ req' = [op |-> "ExternalEdit", e |-> k, vars |-> <<>>, parts |-> <<>>, f |-> {}]
   /\ store' = [store EXCEPT ![k] = v] /\ out' = Nothing
-  /\ n' = n + 1 /\ UNCHANGED <<content, compiled, dirty, tree, backend>>
+  /\ n' = n + 1 /\ UNCHANGED <<content, compiled, dirty, tree, backend, nbrs>>
 
 Seen == IF ExistsRefreshes \/ backend = "consul" THEN store ELSE tree       \* what Exists looks at (Consul: always a KV read)
 
@@ -206,14 +215,14 @@ Resolve(k, F) ==               \* up to four Exists, nothing else
   /\ req' = [op |-> "Resolve", e |-> k, vars |-> <<>>, parts |-> <<>>, f |-> F]
   /\ out' = Resolution(CodeResolveF(XQ(k), Existing(Seen), F))
   /\ tree' = IF F = {} THEN Seen ELSE tree
-  /\ n' = n + 1 /\ UNCHANGED <<content, compiled, dirty, store, backend>>
+  /\ n' = n + 1 /\ UNCHANGED <<content, compiled, dirty, store, backend, nbrs>>
 
 GetX(k, F) ==                  \* GetComponentConfiguration: queryToAbsPath (Exists), then src.Get (re-reads)
   /\ n < MaxSteps /\ F \in Faults
   /\ req' = [op |-> "GetX", e |-> k, vars |-> <<>>, parts |-> <<>>, f |-> F]
   /\ out' = IF 1 \notin F /\ Seen[k] # 0 /\ store[k] # 0 THEN Rendered(PayloadX(k, store[k])) ELSE RenderError
   /\ tree' = IF 1 \notin F /\ Seen[k] # 0 THEN store ELSE IF F = {} THEN Seen ELSE tree
-  /\ n' = n + 1 /\ UNCHANGED <<content, compiled, dirty, store, backend>>
+  /\ n' = n + 1 /\ UNCHANGED <<content, compiled, dirty, store, backend, nbrs>>
 
 Next == \/ \E e \in Askable, i \in VarIds : Process(e, VarCat[i])
         \/ \E e \in Askable : Raw(e)
@@ -253,6 +262,6 @@ FaultNeverInventsEntry == req.op = "Resolve" /\ req.f # {} => ResolvedExists(XQ(
 PayloadNow        == req.op = "GetX" => Acceptable(content, store, req, FALSE, out)
 
 TypeOK == /\ n \in 0..MaxSteps /\ dirty \in BOOLEAN /\ out.ok \in BOOLEAN
-          /\ store \in [Keys -> 0..2] /\ tree \in [Keys -> 0..2] /\ backend \in {"file", "consul"}
+          /\ store \in [Keys -> 0..2] /\ tree \in [Keys -> 0..2] /\ backend \in {"file", "consul"} /\ nbrs \subseteq Keys
           /\ \A e \in Entries : compiled[e] = NoSnap \/ compiled[e].parts \in Range(UpdCat) \cup Range(InitContent)
 =============================================================================
